@@ -292,7 +292,7 @@ void h_emplace(void) {
   build_state(XV_L); in_op = 4;
   in_acquire = nondet_bool();
   struct pre s = snapshot(); g_pre = s;
-  factory_may_throw = 1; new_may_throw = 1; gp_may_throw = 1; grow_may_throw = 1; grow_calls = 0;
+  factory_may_throw = 1; new_may_throw = 1; gp_may_throw = 0; grow_may_throw = 1; grow_calls = 0;
   mon_on = 1; _Bool r = vhm_do_get_or_emplace(&g_map, in_acquire, in_key); mon_on = 0;
   if (xv_threw) {
     /* factory / new node / guard / grow threw: nothing inserted, nothing lost, the extension item (if one was taken) is back in its free list */
